@@ -1580,7 +1580,10 @@ Error Assembler::_emit(InstId inst_id, const Operand_& o0, const Operand_& o1, c
         uint32_t shift_type = o2.as<Imm>().predicate();
         uint64_t shift_value = o2.as<Imm>().value_as<uint64_t>();
 
-        if (shift_type > uint32_t(ShiftOp::kROR) || shift_value >= op_size)
+        // MVN (ORN) is a logical operation that accepts ROR; NEG|NEGS (SUB|SUBS) only accept LSL, LSR, and ASR.
+        uint32_t max_shift_type = (op_data.opcode & B(24)) ? uint32_t(ShiftOp::kASR) : uint32_t(ShiftOp::kROR);
+
+        if (shift_type > max_shift_type || shift_value >= op_size)
           goto InvalidImmediate;
 
         opcode.add_imm(shift_type, 22);
